@@ -108,7 +108,7 @@ struct Live {
 
 impl Director {
     pub fn new() -> Self {
-        Director { sched: Sched::install(), base: Base::new(), deadline: Duration::from_secs(8), patience: Duration::from_secs(60) }
+        Director { sched: Sched::install(), base: Base::new(), deadline: Duration::from_secs(12), patience: Duration::from_secs(90) }
     }
 
     fn sample(&self, live: &Live) -> ((u64, u32), bool) {
